@@ -266,6 +266,7 @@ func runC03(r *R) {
 	// ---- R4 + R5
 	r.Rule("C03-R4", "BlockCache.Get: stored error joins Get's, ReadFull's and Close's; an entry with an error is refetched; ReadAt copies only under err==nil", 3)
 	r.Rule("C03-R5", "cache buffer: make([]byte, len, cap) with distinct non-constant len/cap is guarded by len <= cap", 1)
+	r.Rule("C03-R7", "cached block buffers are immutable once published: each fetch fills a freshly allocated buffer; no code writes into cacheBlock.data", 1)
 	if outer := r.NeedFn("C03-R4", "(*"+kcl+".BlockCache).Get"); outer != nil {
 		var gofn *ssa.Function
 		var goInstr ssa.Instruction
@@ -310,6 +311,20 @@ func runC03(r *R) {
 			for _, st := range StoresToField(gofn, kcl+".cacheBlock", "data") {
 				r.Ok("C03-R4", gofn, "b.data store", st.Pos(), "paired with b.err")
 			}
+			// R7: the buffer that is filled and then handed to readers is private to this fetch
+			for _, rf := range CallsIn(gofn, "io.ReadFull") {
+				fresh := true
+				for _, l := range PhiLeaves(rf.Common().Args[1]) {
+					if l == nil {
+						fresh = false
+						continue
+					}
+					if _, isMS := l.(*ssa.MakeSlice); !isMS {
+						fresh = false
+					}
+				}
+				r.Check(fresh, "C03-R7", gofn, "io.ReadFull(rdr, <fresh buffer>)", rf.Pos(), "filled buffer is allocated by this fetch (make)", "the cache fills a buffer that was not freshly allocated by this fetch: BlockCache.Get/ReadAt hand the cached slice itself to readers, so a recycled buffer can be overwritten while a reader of the evicted block is still copying from it")
+			}
 			// R5
 			allInstrs(gofn, func(in ssa.Instruction) {
 				ms, ok := in.(*ssa.MakeSlice)
@@ -348,6 +363,33 @@ func runC03(r *R) {
 				r.Check(g1 && g2, "C03-R4", outer, "reuse only error-free entries", wait.Pos(), "refetch unless hit ∧ b.err==nil", "a cached entry that failed verification can be served again without refetching")
 			}
 		}
+	}
+	for _, f := range w.FuncsIn(kcl) {
+		if strings.HasSuffix(w.Fset.Position(f.Pos()).Filename, "_test.go") {
+			continue
+		}
+		allInstrs(f, func(in ssa.Instruction) {
+			c, ok := in.(*ssa.Call)
+			if !ok {
+				return
+			}
+			var dst ssa.Value
+			switch CalleeName(c.Common()) {
+			case "builtin.copy":
+				dst = c.Call.Args[0]
+			case "io.ReadFull", "io.ReadAtLeast":
+				dst = c.Call.Args[1]
+			}
+			if dst == nil {
+				return
+			}
+			if x, _, _, isS := SliceParts(dst); isS {
+				dst = x
+			}
+			if IsFieldLoad(dst, kcl+".cacheBlock", "data") {
+				r.Bad("C03-R7", f, "write into cacheBlock.data", in.Pos(), "a cached (already verified, possibly shared) block buffer is written to")
+			}
+		})
 	}
 	if fn := r.NeedFn("C03-R4", "(*"+kcl+".BlockCache).ReadAt"); fn != nil {
 		gets := CallsIn(fn, "(*"+kcl+".BlockCache).Get")
